@@ -492,7 +492,7 @@ def nesting_traces():
     def val(nm):
         return ir.Value(name=nm, type=ir.TensorType(DT.FLOAT), shape=ir.Shape([2]))
 
-    for names in (None, ("body", "body", "body"), ("a", "b", "c")):
+    for names, else_outer in ((None, False), (("body", "body", "body"), False), (("a", "b", "c"), False), (None, True)):
         for depth in (2, 3):
             g = ir.Graph(name="nest", inputs=[], outputs=[], nodes=[], opset_imports={"": 18})
             x = val("x")
@@ -511,9 +511,11 @@ def nesting_traces():
                     u = op2.Add(t, t)
                     return op2.Mul(u, t)
                 tb = builder.subgraph(then_fn, inputs=[], outputs=[val(f"then_out_{lvl}")], **kw)
-                eb = builder.subgraph(lambda op2: op2.Neg(src), inputs=[], outputs=[val(f"else_out_{lvl}")], **kw)
+                # else_outer: the branch RETURNS the captured outer value itself (a branch output must still be produced in the branch)
+                eb = builder.subgraph((lambda op2: src) if else_outer else (lambda op2: op2.Neg(src)), inputs=[],
+                                      outputs=[val(f"else_out_{lvl}")], **kw)
                 return builder.op.If(c, then_branch=tb, else_branch=eb)
-            tag = f"nested If depth={depth} subgraph names={'default' if names is None else names[:depth]}"
+            tag = f"nested If depth={depth} subgraph names={'default' if names is None else names[:depth]}" + (" else-branch returns the outer value" if else_outer else "")
             try:
                 y = level(gb, x, depth, 0)
                 y.type, y.shape = ir.TensorType(DT.FLOAT), ir.Shape([2])
@@ -538,7 +540,7 @@ def nesting_traces():
                     def ref(v, d):
                         t = v + 1.0
                         return (ref(t, d - 1) * t) if d > 1 else ((t + t) * t)
-                    want = ref(xv, depth) if cv else -xv
+                    want = ref(xv, depth) if cv else (xv if else_outer else -xv)
                     outs, err = R.ort_run(mp.SerializeToString(), {"x": xv, "c": np.array(cv)})
                     if err or not np.allclose(outs[0], want, rtol=1e-5):
                         problems.append(f"{tag}: x={xv.tolist()} c={cv}: graph {None if err else outs[0].tolist()} ({err}) vs trace {want.tolist()}")
